@@ -825,13 +825,9 @@ def rule_s17(ctx):
     return res
 
 
-def rule_s18(ctx):
-    """`10..15` is documented as equivalent to `[10, 11, 12, 13, 14]`, and that literal can be used as an array of any number type its
-    elements fit into.  The Range arm of constrain_type is the only place that can re-type a range (S12: the node and the type move
-    together), so it has to re-type it for signed element types as well as for unsigned ones - otherwise the guide's own example
-    `pub fn main(_a: i32) -> [i32; 5] { 10..15 }` is rejected."""
+def range_retype_kinds(ctx):
+    """Expected element kinds ('Unsigned', 'Signed') for which the Range arm of constrain_type writes the type of the range."""
     from . import C02
-    res = RuleResult("S18", "an untyped range is re-typed for unsigned and for signed expected element types")
     fid = "check::constrain_type"
     body = ctx.body(fid)
     succ = body.pruned_succ({C02.INNER: "Range"})
@@ -864,17 +860,32 @@ def rule_s18(ctx):
                 aps.add(info[0])
     if not aps:
         raise AnchorMissing("S18: the Range arm of constrain_type does not look at the expected element type")
+    kinds = set()
     for kind in ("Unsigned", "Signed"):
         assume = {C02.INNER: "Range"}
         for ap in aps:
             assume[ap] = kind
         reach = set(body.reachable([0], succ=body.pruned_succ(assume)))
         if reach & set(writes):
+            kinds.add(kind)
+    return kinds
+
+
+def rule_s18(ctx):
+    """`10..15` is documented as equivalent to `[10, 11, 12, 13, 14]`, and that literal can be used as an array of any number type its
+    elements fit into.  The Range arm of constrain_type is the only place that can re-type a range (S12: the node and the type move
+    together), so it has to re-type it for signed element types as well as for unsigned ones - otherwise the guide's own example
+    `pub fn main(_a: i32) -> [i32; 5] { 10..15 }` is rejected."""
+    res = RuleResult("S18", "an untyped range is re-typed for unsigned and for signed expected element types")
+    fid = "check::constrain_type"
+    kinds = range_retype_kinds(ctx)
+    for kind in ("Unsigned", "Signed"):
+        if kind in kinds:
             res.ok({"expected_element_type": kind, "verdict": "the range's type is written"})
         else:
             res.bad(Finding("S18", fid, "a range cannot become an array of %s numbers" % kind.lower(),
                             "with an expected element type Type::%s no path of the Range arm re-types the range: `pub fn main(_a: i32) -> [i32; 5] { 10..15 }` (the example of the "
-                            "language guide) is rejected with `Expected type [i32; 5], but found [unspecified unsigned int; 5]`" % kind, body.fn["sp"]))
+                            "language guide) is rejected with `Expected type [i32; 5], but found [unspecified unsigned int; 5]`" % kind, ctx.fn(fid)["sp"]))
     return res
 
 
